@@ -36,6 +36,10 @@ func c12VoteSpecs(quick bool) []hapi.ArbSpec {
 		{Name: "3-data-link-0-2-down-two-rounds", Members: []hapi.ArbMember{d(1, 1), d(1, 1), d(1, 1)}, Candidates: []int{0, 1}, Down: [][2]int{{0, 2}}, Rounds: 2, MaxLoss: 0},
 		{Name: "3-data-newer-log-across-wrap", Members: []hapi.ArbMember{d(1, 1), d(1, 2), d(2, 1)}, Candidates: []int{0, 2}, Rounds: 1, MaxLoss: 1},
 		{Name: "2-data-1-arbiter", Members: []hapi.ArbMember{d(1, 1), d(1, 2), arb}, Candidates: []int{0, 2}, Rounds: 1, MaxLoss: 1},
+		{Name: "3-data-weight0-has-newest-log", Members: []hapi.ArbMember{d(1, 1), d(0, 2), d(1, 1)}, Candidates: []int{1, 2}, Rounds: 1, MaxLoss: 1},
+		// the newest entry is younger than the last status poll: everybody's cached view of member 1 (its own too) is one behind
+		{Name: "3-data-weight0-newest-log-not-yet-polled", Members: []hapi.ArbMember{d(1, 1), {Weight: 0, Log: 2, StaleBy: 1}, d(1, 1)}, Candidates: []int{1, 2}, Rounds: 1, MaxLoss: 1},
+		{Name: "3-data-newest-log-not-yet-polled", Members: []hapi.ArbMember{d(1, 1), {Weight: 1, Log: 2, StaleBy: 1}, d(1, 1)}, Candidates: []int{0, 2}, Rounds: 1, MaxLoss: 1},
 		{Name: "4-members-weight0-and-arbiter", Members: []hapi.ArbMember{d(1, 1), d(0, 1), d(2, 2), arb}, Candidates: []int{0, 1}, Rounds: 1, MaxLoss: 0},
 	}
 	specs = append(specs,
